@@ -66,7 +66,35 @@ ReaderVerdict(o) ==
 OpenReaderSafe(o) == ReaderVerdict(o).fails \subseteq {"INFO.AcceptsMalformed"}
 
 ----------------------------------------------------------------------------
-Verdict(o) == IF o.kind = "read" THEN ReaderVerdict(o) ELSE WriterVerdict(o)
+(* Histories: several sends on one process / connection object.  The same   *)
+(* RoundTrip is demanded of every send the writer reports as successful,    *)
+(* on the octets written FOR THAT CALL - whatever happened before (a send   *)
+(* the writer refused, a connection that failed after k octets).  A send    *)
+(* that returns an error where a refusal / failure is expected may have     *)
+(* written nothing or a prefix; it is not judged.                           *)
+Judgeable(p) == p.kind # "update" \/ \A k \in DOMAIN p.comms : Len(p.comms[k]) = 2
+Quiet == [fails |-> {}, info |-> [err |-> ""]]
+
+StepVerdict(st) ==
+  LET p == st.p IN
+  IF st.panic # "" \/ st.timeout THEN WriterVerdict(st)
+  ELSE IF st.err # "" /\ (p.failat >= 0 \/ p.expect = "refusable") THEN Quiet
+  ELSE IF st.err = "" /\ ~Judgeable(p) THEN Quiet
+  ELSE WriterVerdict(st)
+
+HistoryVerdict(o) ==
+  LET bad == {k \in DOMAIN o.steps : StepVerdict(o.steps[k]).fails # {}} IN
+  IF bad = {} THEN Quiet
+  ELSE LET k == CHOOSE x \in bad : \A y \in bad : x <= y
+           v == StepVerdict(o.steps[k])
+       IN [fails |-> v.fails, info |-> [step |-> k, badsteps |-> bad, first |-> v.info]]
+
+HistoryRoundTrip(o) == HistoryVerdict(o).fails = {}
+
+----------------------------------------------------------------------------
+Verdict(o) == CASE o.kind = "read" -> ReaderVerdict(o)
+                [] o.kind = "history" -> HistoryVerdict(o)
+                [] OTHER -> WriterVerdict(o)
 
 Init == i = 1
 Next == i < N /\ i' = i + 1
